@@ -320,7 +320,7 @@ def run(tier):
     core = {p for p in res["tables"] if p.startswith("precis_core::")}
     tablecheck.report_tables(rep, res, core, rule="L5")
     rep.ob("L5-predicate", "is_unassigned = Cn & !Noncharacter_Code_Point", res["unassigned_predicate_diff"] is None, "differs at %s" % res["unassigned_predicate_diff"])
-    common.lookup_sites(prog, rep, floor=6)
+    common.lookup_sites(prog, rep)
     class_outcomes(prog, rep)
     entry_points(prog, rep)
     has_compat(prog, rep)
